@@ -297,10 +297,38 @@ func runFree(c *Case, e *evalCtx) *freeResult {
 		first = false
 		sb.WriteString(s)
 	}
-	polls := func(j int) {
-		for i := 0; i < j; i++ {
-			put("p")
+	// clock readings of the schedule (synthetic, in the observed order): a round before the deadline is
+	// possible only while the reading stays below select-time + waiting time in force
+	clk := int64(1000)
+	wait := st.MaxWait
+	getRecord := func(id int, j int64, addNow bool) { // GetTimeout entered at clk, j empty-handed rounds, then the record
+		if j >= wait {
+			j = 0
 		}
+		put("t" + strconv.FormatInt(clk, 10))
+		for i := int64(0); i < j; i++ {
+			put("p" + strconv.FormatInt(clk+i, 10))
+		}
+		if addNow {
+			put("a:" + e.recs[id].line())
+		}
+		put("p" + strconv.FormatInt(clk+j, 10))
+		clk += j + 1
+	}
+	idle := func(j int64) { // GetTimeout entered at clk, j rounds before the deadline, one at or after it
+		if j >= wait {
+			j = 0
+		}
+		put("t" + strconv.FormatInt(clk, 10))
+		for i := int64(0); i < j; i++ {
+			put("p" + strconv.FormatInt(clk+i, 10))
+		}
+		due := clk
+		if wait > 0 {
+			due = clk + wait
+		}
+		put("p" + strconv.FormatInt(due, 10))
+		clk = due + 1
 	}
 	if f.Accept == "stalled" {
 		// the exact schedule: every Add before the loop starts (the model refuses the overflow
@@ -310,28 +338,20 @@ func runFree(c *Case, e *evalCtx) *freeResult {
 		}
 		for _, id := range stalledOrder {
 			if !dropped[id] {
-				put("t" + strconv.Itoa(id%3))
-				put("p")
+				getRecord(id, 0, false)
 			}
 		}
-		put("t1")
-		polls(2)
+		idle(1)
 	} else {
 		for _, ids := range sharedPacks {
 			for _, id := range ids {
-				j := (id*7 + 3) % 3
-				put("t" + strconv.Itoa(j))
-				polls(j)
-				put("a:" + e.recs[id].line())
-				put("p")
+				getRecord(id, int64((id*7+3)%3), true)
 			}
-			j := len(ids) % 3
-			put("t" + strconv.Itoa(j))
-			polls(j + 1)
+			idle(int64(len(ids) % 3))
 		}
 	}
 	put("k")
-	put("t0")
+	put("t" + strconv.FormatInt(clk, 10))
 	for _, b := range f.Direct {
 		if len(b) == 0 {
 			put("d:-")
